@@ -409,6 +409,7 @@ int main(int argc, char **argv) {
         } else if (!strcmp(tok[0], "CLEAR")) {
             plan_alloc = 0; plan_sticky = 0; plan_send = 0; plan_send_all = 0; plan_get = 0;
         } else if (!strcmp(tok[0], "MARK")) {
+            vp_now_ms = 1000;      /* scenario boundary: every scenario starts at the same virtual time */
             fprintf(tr, "{\"e\":\"mark\",\"ln\":%ld,\"name\":\"%s\"}\n", lineno, ntok > 1 ? tok[1] : "");
             evno++;
         } else die("unknown directive");
